@@ -66,9 +66,13 @@ func (t *Template) Execute(w io.Writer, variables VarMap, data interface{}) (err
 		t = t.extends
 	}
 
+	if verifOn {
+		vt(st, "exec.found") // the recycled Runtime as it came out of the pool (context, content)
+	}
 	if data != nil {
 		st.context = reflect.ValueOf(data)
 	}
+	vt(st, "exec.begin")
 
 	st.executeList(t.Root)
 	return
